@@ -20,7 +20,7 @@ def path_hyps(path, extra=()):
 
 
 def explore_checked(ses, oid, run, hyps, *, function=None, allowed_exc=(), timeout_ms=2000, max_paths=64,
-                    replay=None):
+                    replay=None, limit_group="getitem"):
     """Explore all paths of run(path) and turn engine-level outcomes into obligations:
       * a path that ends `undecided`            -> undecided obligation (engine limit, not a violation)
       * a path that raises an unexpected exception -> obligation "this path is infeasible" (pc ⇒ False)
@@ -28,7 +28,7 @@ def explore_checked(ses, oid, run, hyps, *, function=None, allowed_exc=(), timeo
     try:
         results = explore(run, hyps=hyps, timeout_ms=timeout_ms, max_paths=max_paths)
     except PathLimit as e:
-        ses.undecided(f"{oid}/paths", f"path limit: {e}", function=function)
+        ses.engine_limit(f"{oid}/paths", f"path limit: {e}", function=function, group=limit_group)
         return []
     ok = []
     n_raise = 0
@@ -36,7 +36,7 @@ def explore_checked(ses, oid, run, hyps, *, function=None, allowed_exc=(), timeo
         if r.outcome == "return":
             ok.append(r)
         elif r.outcome == "undecided":
-            ses.undecided(f"{oid}/supported", f"{type(r.exc).__name__}: {r.exc}", function=function)
+            ses.engine_limit(f"{oid}/supported", f"{type(r.exc).__name__}: {r.exc}", function=function, group=limit_group)
         else:
             if allowed_exc and isinstance(r.exc, allowed_exc):
                 ok.append(r)
@@ -88,8 +88,9 @@ def _worker(args):
         getattr(mod, fname)(sub, case)
     except _Budget:
         # on the unchanged tree every case finishes well inside the budget
-        sub.not_proved(f"{prop}/{fname}/{'-'.join(map(str, case))}/within-verified-subset",
-                       f"time budget of {budget}s exceeded while interpreting this case", function=f"{modname}.{fname}")
+        sub.engine_limit(f"{prop}/{fname}/{'-'.join(map(str, case))}/within-verified-subset",
+                         f"time budget of {budget}s exceeded while interpreting this case", function=f"{modname}.{fname}",
+                         group={"case_post_init": "post_init", "case_load": "load"}.get(fname, "getitem"))
     except Exception:
         sub.crashed = f"case {case!r}: " + traceback.format_exc()
     finally:
@@ -190,8 +191,8 @@ def explore_parallel(ses, modname, fname, payload, processes=None, max_paths=300
     if over:
         # on the unchanged tree every unit is explored completely within these limits: exceeding them means the code
         # left the subset the verifier decides
-        ses.not_proved(f"{payload.get('prop')}/{payload.get('unit')}/within-verified-subset", over,
-                       function=payload.get("unit"))
+        ses.engine_limit(f"{payload.get('prop')}/{payload.get('unit')}/within-verified-subset", over,
+                         function=payload.get("unit"), group=payload.get("unit"))
     return n_paths
 
 
@@ -240,5 +241,5 @@ def explore_parallel_multi(ses, modname, fname, payloads, processes=None, max_pa
             if not progressed:
                 time.sleep(0.02)
     for u, why in over.items():
-        ses.not_proved(f"{ses.prop}/{u}/within-verified-subset", why, function=u)
+        ses.engine_limit(f"{ses.prop}/{u}/within-verified-subset", why, function=u, group=u)
     return counts
